@@ -674,7 +674,9 @@ def serve_stage(ctx: vlib.Ctx, shape_flags: dict[str, bool] | None) -> None:
     header = ("From Coq Require Import ZArith List Bool.\nFrom C16 Require Import Bytes Shape Model Serve ServeInst.\n"
               "From Gen Require Import Frame ServeShape.\nImport ListNotations.\n")
     exprs = ["session current_shape [" + "; ".join(st.model for st in steps) + "]" for _, steps in scenarios]
-    model = ctx.eval_cases("serve", header, exprs, per_file=12)
+    # no shape extracted (broken T, already reported): there is no model of the current loop to compare with;
+    # the S oracle below still runs on the implementation
+    model = ctx.eval_cases("serve", header, exprs, per_file=12) if shape_flags is not None else None
     injected = 0
     for i, ((name, steps), res) in enumerate(zip(scenarios, results)):
         if "error" in res:
@@ -757,6 +759,8 @@ def run(ctx: vlib.Ctx) -> None:
                        "(non-trivial = at least one frame completes across a chunk boundary or a partial frame is pending at EOF); "
                        "(b) every client behaviour x position in a session against a real daemon")
     ctx.assumptions += [
+        "args_validated is read off run_command's inspect.signature(method).bind check; its `except ValueError: pass` (no introspectable "
+        "signature, e.g. compiled mypy) is assumed not to occur: the daemon under test is the interpreted one",
         "POSIX branch of mypy/ipc.py only (the win32 named-pipe code is not modelled)",
         "recv on a stream socket returns b'' only when the peer has closed; a zero-length write produces no read event (Model.feed)",
         "memoryview()/bytes() in frame_from_buffer are value-preserving (no in-place mutation of the viewed bytearray in between): checked by correspondence",
